@@ -97,17 +97,22 @@ def splitScheme (url dflt : Str) : Str × Str :=
     | [] => (dflt, url)
   | (_, none) => (dflt, url)
 
+/-- the netloc step of `urlsplit` (`_splitnetloc(url, 2)` when `url[:2] == '//'`):
+`(netloc, rest)` -/
+def splitNetloc (url : Str) : Str × Str :=
+  if startsWith url ['/', '/'] then
+    ((url.drop 2).takeWhile (fun c => !isNetlocDelim c), (url.drop 2).dropWhile (fun c => !isNetlocDelim c))
+  else ([], url)
+
 /-- `urlsplit(url, scheme)`; `none` = `ValueError` -/
 def urlsplit (url0 : Str) (dflt : Str := []) : Option SplitResult :=
-  let url := cleanUrl url0
-  let (scheme, url) := splitScheme url dflt
-  let (netloc, url) :=
-    if startsWith url ['/', '/'] then (url.drop 2).span (fun c => !isNetlocDelim c) else ([], url)
-  if !netlocOk netloc then none
+  let sc := splitScheme (cleanUrl url0) dflt
+  let nl := splitNetloc sc.2
+  if !netlocOk nl.1 then none
   else
-    let (url, fragment) := splitFirst url '#'
-    let (url, query) := splitFirst url '?'
-    some ⟨scheme, netloc, url, query.getD [], fragment.getD []⟩
+    let fr := splitFirst nl.2 '#'
+    let q := splitFirst fr.1 '?'
+    some ⟨sc.1, nl.1, q.1, q.2.getD [], fr.2.getD []⟩
 
 /-- `urlunsplit((scheme, netloc, url, query, fragment))` -/
 def urlunsplit (scheme netloc url query fragment : Str) : Str :=
